@@ -849,7 +849,7 @@ def build_module(cls, baseline, envname, seed):
         return REINFORCE(env, pol, baseline=baseline, **kw)
     if cls == "AttentionModel":
         return AttentionModel(env, baseline=baseline, policy_kwargs=pk, **kw)
-    return POMO(env, policy_kwargs=pk, num_augment=2, **kw)
+    return POMO(env, policy_kwargs=pk, num_augment=8, **kw)
 
 
 def load_ckpt(cls, path, load_baseline, force):
